@@ -30,7 +30,8 @@ import rsx  # noqa: E402
 BUILD = os.path.join(ROOT, ".build")
 UNITS = os.path.join(ROOT, "units")
 BASE = os.path.join(ROOT, "baseline")
-EVID = os.path.join(ROOT, "evidence")
+# VERIF_SCRATCH=1 (used when trying seeded changes by hand) keeps the committed evidence files untouched
+EVID = os.path.join(BUILD, "scratch_evidence") if os.environ.get("VERIF_SCRATCH") else os.path.join(ROOT, "evidence")
 VERUS = shutil.which("verus") or "/usr/local/bin/verus"
 
 VERIF_FAIL = (
